@@ -4,6 +4,15 @@ parser, evidence writer, known-findings bookkeeping, VIOLATION reporting."""
 import json, os, re, shutil, subprocess, sys, tempfile, time, hashlib, random
 
 VERIF = os.path.dirname(os.path.dirname(os.path.abspath(__file__)))
+# reference implementations (zstd, xz, bzip2, bsdtar, GNU tar) may live outside a minimal PATH
+for _d in ("/root/miniconda/bin", "/opt/conda/bin", "/usr/local/bin", "/usr/bin", "/bin"):
+    if os.path.isdir(_d) and _d not in os.environ.get("PATH", "").split(":"):
+        os.environ["PATH"] = os.environ.get("PATH", "") + ":" + _d
+
+
+def have(tool):
+    import shutil as _sh
+    return _sh.which(tool) is not None
 SPEC = os.path.join(VERIF, "spec")
 JAR = "/opt/veriftools/tla/tla2tools.jar:/opt/veriftools/tla/CommunityModules-deps.jar"
 SEED = int(os.environ.get("VERIF_SEED", "1"))
